@@ -57,7 +57,11 @@ class Driver(object):
 
     def new(self, k, mapping, form):
         d = {n: self.vals[v - 1] for n, v in mapping}
-        self.live[k] = self.E(d) if form == "dict" or not d else self.E(**d)
+        if form == "opcode":
+            # an enumeration also comes into being as the service-action table of an OpCode
+            self.live[k] = mod("pyscsi.pyscsi.scsi_opcode").OpCode("OP_" + k, 0xA3, d).serviceaction
+        else:
+            self.live[k] = self.E(d) if form == "dict" or not d else self.E(**d)
         return {"op": "new", "e": k, "items": self.items(k), "given": [[n, v] for n, v in mapping],
                 "others": self.others(k), "form": form}
 
@@ -124,7 +128,11 @@ def run(chk, replay=None):
         d = Driver(kind, kinds[kind])
         out = [{"op": "reset"}]
         out.append(d.new("E1", init, form))
-        out.append(d.new("E2", [("a", 2), ("_b", 3)], "kwargs"))      # the bystander
+        # the bystander; every third history both start empty as service-action tables of two OpCodes
+        if form == "opcode" and not init:
+            out.append(d.new("E2", [], "opcode"))
+        else:
+            out.append(d.new("E2", [("a", 2), ("_b", 3)], "kwargs"))
         for (op, n, v, k) in seq:
             out.append(d.op(k, op, n, v))
         return out
@@ -143,7 +151,7 @@ def run(chk, replay=None):
                     prod = rng.sample(list(prod), 40000)
                 for seq in prod:
                     s = [(op, nm, v, "E1") for (op, nm, v) in seq]
-                    h = history(kind, init, s, "dict" if n_hist % 2 == 0 else "kwargs")
+                    h = history(kind, init, s, ("dict", "kwargs", "opcode")[n_hist % 3])
                     index += [(kind, str(init), str(seq))] * len(h)
                     events += h
                     n_hist += 1
@@ -156,7 +164,7 @@ def run(chk, replay=None):
             h = [{"op": "reset"}]
             for k in ("E1", "E2", "E3"):
                 m = [(n, rng.randint(1, 4)) for n in rng.sample(NAMES, rng.randint(0, 5))]
-                h.append(d.new(k, m, rng.choice(["dict", "kwargs"])) if m else d.new(k, [("zz", 1)], "dict"))
+                h.append(d.new(k, m, rng.choice(["dict", "kwargs", "opcode"])) if m else d.new(k, [], "opcode"))
             for _ in range(rng.randint(20, 200)):
                 op, n, v = rng.choice(alpha3)
                 h.append(d.op(rng.choice(("E1", "E2", "E3")), op, n, v))
